@@ -2,7 +2,7 @@
 # tools/confirm_seed.sh <Cxx> <A|B>   confirm a sub-agent's mutation in its scratch worktree /tmp/wt-<Cxx>:
 #  demo passes without the change, fails with it; the crate's own suite passes with it. Writes /tmp/seed-<Cxx>/<A|B>.confirm
 set -u
-P="$1"; M="$2"; WT=/tmp/wt-$P; SD=/tmp/seed-$P; OUT=$SD/$M.confirm
+P="$1"; M="$2"; WT=${WT_PREFIX:-/tmp/wt}-$P; SD=${SEED_PREFIX:-/tmp/seed}-$P; OUT=$SD/$M.confirm
 cd "$WT" || exit 2
 git checkout -q -- . ; git clean -fdq tests src 2>/dev/null
 git checkout -q --detach main 2>/dev/null
